@@ -26,9 +26,9 @@ func (c *ChoquetIntegralBiasListener) OnCriterionAdded(
 	newWeights := make(model.Weights, len(*newWeightsKeys))
 	for _, k := range *newWeightsKeys {
 		cKey := criterionKey(&k)
-		weight, ok := (*oldWeights)[cKey]
+		_, ok := (*oldWeights)[cKey]
 		if ok {
-			newWeights[cKey] = weight
+			// already part of the parameters: only the additions are returned, Merge joins them with the old ones
 			continue
 		}
 		originalKeyCriteriaWithoutNewOne := utils.RemoveSingleStringOccurrence(k, criterion.Id)
@@ -38,7 +38,7 @@ func (c *ChoquetIntegralBiasListener) OnCriterionAdded(
 		}
 		newWeights[cKey] = getWeightForCriteriaUnion(&originalKeyCriteriaWithoutNewOne, oldWeights)
 	}
-	return choquetParams{weights: &newWeights, criteria: &newCriteria}
+	return choquetParams{weights: &newWeights, criteria: &model.Criteria{*criterion}}
 }
 
 func (c *ChoquetIntegralBiasListener) OnCriteriaRemoved(
